@@ -72,9 +72,23 @@ def flush_rules(ctx: Ctx, res: Result, RID: str):
             res.fail(Finding(RID, flush.qname, w, flush.loc(w), "the guard wraps the whole wait loop: one timeout stops waiting for the rest"))
         else:
             res.ok(RID, {"wait": norm(w), "at": flush.loc(w), "per-future": bool(loops)})
+        # every path through flush reaches the wait: no condition, no earlier exit
+        anchor = loops[-1] if loops else paths.stmt_of(p, w)
+        conds_ = paths.conditions(p, anchor, flush)
+        early = [n for n in t.nodes_in(flush, (ast.Return, ast.Raise)) if n.lineno < anchor.lineno and not paths.within(p, n, anchor)
+                 and g.catching_try(n, flush, "BaseException") is None]
+        if conds_ or early:
+            what = conds_[0][0] if conds_ else early[0]
+            res.fail(Finding(RID, flush.qname, what, flush.loc(what), "flush can return without waiting (`%s`): a flush that finds the handler already "
+                             "closed (second caller, retry) returns while accepted tasks are still running" % norm(what)[:60]))
+        else:
+            res.ok(RID, {"wait reached on every path": True})
         if loops:
             it = getattr(loops[0], "iter", None)
-            if it is not None and "_pending" in norm(it):
+            cut = [n for n in ast.walk(it) if isinstance(n, ast.Subscript) or (isinstance(n, ast.Call) and norm(n.func).endswith("islice"))] if it is not None else []
+            if it is not None and "_pending" in norm(it) and cut:
+                res.fail(Finding(RID, flush.qname, it, flush.loc(it), "flush waits for a part of the pending futures only (`%s`)" % norm(cut[0])[:60]))
+            elif it is not None and "_pending" in norm(it):
                 res.ok(RID, {"iterates": norm(it)})
             else:
                 res.fail(Finding(RID, flush.qname, loops[0].iter if hasattr(loops[0], "iter") else w, flush.loc(w),
@@ -105,7 +119,8 @@ def run(ctx: Ctx, tier: str) -> Result:
                       ("C09.B", "exactly one submit / send per hand-over"),
                       ("C09.C", "flush contains task outcomes and waits for all"),
                       ("C09.D", "submit after close raises before queueing"),
-                      ("C09.E", "read-modify-write of handler state under the lock")):
+                      ("C09.E", "read-modify-write of handler state under the lock"),
+                      ("C09.F", "state shared between sends is stored only after the step that computes it succeeded")):
         res.rule(rid, text)
     p, t, g = ctx.prog, ctx.types, ctx.guards
 
@@ -168,6 +183,63 @@ def run(ctx: Ctx, tier: str) -> Result:
 
     # ---------------- C
     flush_rules(ctx, res, "C09.C")
+
+    # every accepted task is tracked: the pool's future goes into the map flush waits on, on every path
+    for ps in pool_submits:
+        st = paths.stmt_of(p, ps)
+        fut = norm(st.targets[0]) if isinstance(st, ast.Assign) and len(st.targets) == 1 and isinstance(st.targets[0], ast.Name) else None
+        regs = [n for n in t.nodes_in(submit, ast.Assign) if isinstance(n.targets[0], ast.Subscript) and "_pending" in norm(n.targets[0].value)
+                and (norm(n.value) == fut or n.value is ps)]
+        okreg = [n for n in regs if not paths.conditions(p, n, submit) and not paths.enclosing_loops(p, n, submit)
+                 and (n.value is ps or paths.dominates(p, st, n, submit))]
+        if okreg:
+            res.ok("C09.C", {"accepted task tracked": norm(okreg[0])})
+        else:
+            res.fail(Finding("C09.C", submit.qname, regs[0] if regs else "<self._pending[id] = future>", submit.loc(regs[0]) if regs else submit.loc(),
+                             "the future of an accepted task is not (unconditionally) recorded in the pending map: flush does not wait for it"))
+    # completion callbacks run on the worker (or on the submitting thread when the task already finished): the
+    # executor shields them from Exception only - anything else kills the pool worker / reaches the application
+    ncb = 0
+    for f in p.functions.values():
+        if not f.module.name.startswith("deep.task"):
+            continue
+        for c in t.calls_in(f):
+            if isinstance(c.func, ast.Attribute) and c.func.attr == "add_done_callback" and c.args:
+                for tt in t.type_of(c.args[0], f):
+                    if tt[0] in ("bound", "func") and tt[1] in p.functions:
+                        cb = p.functions[tt[1]]
+                        ncb += 1
+                        bad = {tok: ch for tok, ch in g.escape_tokens(cb).items() if tok in ("BaseException",)}
+                        if not bad:
+                            res.ok("C09.C", {"completion callback lets no BaseException escape": cb.qname})
+                        for s_, e_ in g.unguarded_sites(cb):
+                            for tok, ch in sorted(e_.items()):
+                                if tok == "BaseException":
+                                    res.fail(Finding("C09.C", cb.qname, s_.node, cb.loc(s_.node),
+                                                     "the completion callback re-raises the task's outcome: a task failing with a BaseException "
+                                                     "(SystemExit, CancelledError, GeneratorExit) kills the pool worker for good - later snapshots are "
+                                                     "accepted but never sent", path=g.fmt_chain(ch)))
+    res.floor("task completion callbacks", ncb, 1)
+
+    # ---------------- F: a failing send leaves nothing behind that later sends use
+    n_st = 0
+    for f in reachable(ctx, push_task):
+        if f.name == "__init__" or f.cls is None:
+            continue
+        for n in t.nodes_in(f, (ast.Assign, ast.AugAssign)):
+            tgts = n.targets if isinstance(n, ast.Assign) else [n.target]
+            if not any(isinstance(x, ast.Attribute) and isinstance(x.value, ast.Name) and x.value.id == f.params[0] for x in tgts if f.params):
+                continue
+            n_st += 1
+            after = [(s_, e_) for s_, e_ in g.unguarded_sites(f) if not paths.within(p, s_.node, n) and paths.dominates(p, n, s_.node, f)]
+            if after:
+                s_, e_ = after[0]
+                res.fail(Finding("C09.F", f.qname, n, f.loc(n), "state kept between sends is stored before the step that fills it has succeeded (`%s` can still "
+                                 "fail): one failed send leaves a half-built value that every later snapshot is sent with" % norm(s_.node)[:60],
+                                 path=g.fmt_chain(sorted(e_.items())[0][1])))
+            else:
+                res.ok("C09.F", {"stored last": norm(n)[:70], "in": f.qname})
+    res.analysed["stores to shared objects on the send path"] = n_st
 
     # ---------------- D
     checks = []
